@@ -370,6 +370,25 @@ def run(report, p):
                 r8.check(False, f, c, f"`{norm(c)[:70]}` combines {'the routed history with an unrouted path' if recv_routed else 'an unrouted history with the routed path'}: the path is not relative to the history that is asked", construct=f"lookup {c.func.attr} mixes routed and unrouted history / path")
 
     # ---- rules shared with other properties (same mechanism, same rule, reported under every property it can break)
+    # ------------------------------------------------------------------ R8.10
+    r10 = report.rule(
+        "R8.10",
+        "the session routes every record by the record's OWN path: in the session's append methods the history is `find_history_for_path(<root-relative path of the "
+        "item that is recorded>)` - not of its parent folder or any other derived path (the root folder of a nested history belongs to the nested history as `.`; "
+        "routed by its parent it never gets its own record, commit then skips the nested history: no generation, no reference from the parent)",
+        4,
+    )
+    for fq, f in sorted(p.funcs.items()):
+        if not f.module.name.endswith(".generator") or not f.cls:
+            continue
+        for call, tg in p.calls[fq]:
+            if not any(t.endswith("find_history_for_path") for t in tg) or not call.args:
+                continue
+            r10.instance(f, call, f"{f.name}: {norm(call)[:60]}")
+            os_ = [x for o in pr.origins(call.args[0], f) for x in alts(o)]
+            okr = bool(os_) and all(is_call(o, "get_relative_file_path") and o[2] and o[2][0][0] == "param" for o in os_)
+            r10.check(okr, f, call, f"`{norm(call)[:70]}` routes the record by `{show(os_[0])[:80] if os_ else norm(call.args[0])}`, not by the root-relative path of the item itself: an item on a history boundary (the root folder of a nested history) ends up in the wrong history", construct=f"{f.name}: record routed by a derived path")
+
     include_rules(report, p, 'c12', ['R12.12'], 'every file is recorded in exactly one history: a pathspec that picks up the patterns of one nested history while the tree is traversed hides matching files of the histories traversed after it')
     include_rules(report, p, 'c10', ['R10.8'], 'the <references> section is the last of a manifest: a reader that leaves its event loop early loses the links to the nested histories')
     include_rules(report, p, 'c05', ['R5.7'], 'every nested ascmhl folder must be discovered as a child history')
